@@ -95,7 +95,8 @@ class ClassicalGate(Box):
 
     def subs(self, *args):
         data = rsubs(list(self.data.flatten()), *args)
-        return ClassicalGate(self.name, self.dom, self.cod, data)
+        return ClassicalGate(
+            self.name, self.dom, self.cod, data, _dagger=self._dagger)
 
     def lambdify(self, *symbols, **kwargs):
         from sympy import lambdify
